@@ -86,6 +86,15 @@ def changed_fields(pre, post, prefix=''):
     if isinstance(pre, StructV) and isinstance(post, StructV) and pre.path.split('::')[-1] == post.path.split('::')[-1]:
         for n, x, y in zip(pre.names, pre.fields, post.fields):
             out += changed_fields(x, y, prefix + n + '.')
+        pn = pre.path_names() if getattr(pre, 'paths', None) else None
+        if pn:
+            # state that lives inside a nested private struct is reported under its canonical name
+            tr = []
+            for c in out:
+                rel = c[len(prefix):]
+                hit = next((k for k in pn if rel == k or rel.startswith(k + '.')), None)
+                tr.append(prefix + pn[hit] + rel[len(hit):] if hit is not None else c)
+            out = tr
         return out
     if not same(pre, post):
         out.append(prefix.rstrip('.'))
